@@ -179,9 +179,11 @@ def run_item(item):
                     exc.clause = exc.prop + ':' + exc.clause
                     exc.prop = target
                 if kind == 'ub':
-                    if item.get('ub_prop', 'C02') in accept or target in ('C12', 'C13', 'C10', 'C11', 'C16', 'C05', 'C07'):
+                    # a layout assumption (an offset taken from another instantiation applied to RcBox<T>) sends every raw-pointer
+                    # API to the wrong cells: it is a violation of whichever property the item is about
+                    if item.get('ub_prop', 'C02') in accept or target in ('C12', 'C13', 'C10', 'C11', 'C16', 'C05', 'C07') or getattr(exc, 'kind', '') == 'layout-assumption':
                         kind = 'violation'
-                        exc = driver.Violation(item.get('ub_prop', 'C02') if target not in ('C12', 'C13', 'C10', 'C11', 'C16', 'C09', 'C07', 'C05') else target,
+                        exc = driver.Violation(item.get('ub_prop', 'C02') if (target not in ('C12', 'C13', 'C10', 'C11', 'C16', 'C09', 'C07', 'C05') and getattr(exc, 'kind', '') != 'layout-assumption') else target,
                                                'memory:' + exc.kind, exc.detail, sc.model_values(None))
                         exc.stack = getattr(out[1], 'stack', [])
                     else:
